@@ -328,6 +328,10 @@ class Ctx:
                 self.spec = L.apply_edits(self.A, self.spec, case['edits'])
             self.B = L.build(self.spec)
             self.sample = False
+            try:    # the records of the analysed lens hold an unrelated single-ray trace when the analysis starts
+                self.A.trace_generic(0.0, 0.37, 0.21, -0.45, L.primary_wavelength(self.spec))
+            except Exception:
+                pass
         spec = self.spec
         self.lw = [w[0] for w in spec['wavelengths']]
         self.pi = [i for i, w in enumerate(spec['wavelengths']) if w[1]][0]
